@@ -30,6 +30,10 @@ type isoCase struct {
 	Cfg      gwsim.Config `json:"cfg"`
 	Sessions []isoSession `json:"sessions"`
 	Order    []int        `json:"order"` // interleaving: which session takes its next step
+	// Flood: at the end every session sends that many QoS 0 PUBLISHes (short topic, 48 octets of its own
+	// letter and a counter), all sessions at once with no settling in between, so that the gateway's
+	// session goroutines really run side by side.
+	Flood int `json:"flood,omitempty"`
 }
 
 func genIsoSession(t *rapid.T, cfg gwsim.Config, idx int) isoSession {
@@ -37,6 +41,10 @@ func genIsoSession(t *rapid.T, cfg gwsim.Config, idx int) isoSession {
 	s.Auto = gwsim.Auto{Connack: gwgen.U8(0), BrokerAcks: true, ClientRegack: true, ClientAcks: true, BrokerPubrel: true,
 		Suback: rapid.SampledFrom([]string{"grant", "grant", "fail"}).Draw(t, "suback")}
 	s.Hostile = rapid.IntRange(0, 3).Draw(t, "hostile") == 0
+	if s.Hostile && rapid.Bool().Draw(t, "hostile_silent") {
+		// a hostile client which does not acknowledge the broker's publishes: their exchanges stay open
+		s.Auto.ClientAcks = false
+	}
 	if rapid.IntRange(0, 3).Draw(t, "small") == 0 {
 		s.MaxTopic = uint16(rapid.IntRange(2, 5).Draw(t, "maxtopic"))
 	}
@@ -45,6 +53,7 @@ func genIsoSession(t *rapid.T, cfg gwsim.Config, idx int) isoSession {
 	// name->ID lookups depend on map iteration order. So a plain name is subscribed to only while
 	// it has no ID yet.
 	hasID := map[string]bool{}
+	var bmids []uint16 // message IDs of this script's broker publishes so far
 	if !s.Hostile || rapid.Bool().Draw(t, "hostile_connects") {
 		// The connect exchange is made of separate script steps (CONNECT, AUTH, WILLTOPIC, WILLMSG), so
 		// that the exchanges of different sessions overlap in the drawn interleaving; every session
@@ -63,7 +72,7 @@ func genIsoSession(t *rapid.T, cfg gwsim.Config, idx int) isoSession {
 		mid := uint16(rapid.IntRange(1, 3).Draw(t, "mid"))
 		kinds := []string{"register", "register", "subscribe", "cpub", "bpub", "bpub-new", "sleep", "wake", "ppub"}
 		if s.Hostile {
-			kinds = append(kinds, "garbage", "garbage", "illegal", "badmq", "mqclose", "anypkt", "anypkt")
+			kinds = append(kinds, "garbage", "garbage", "illegal", "badmq", "mqclose", "anypkt", "anypkt", "wrongack", "wrongack")
 		}
 		switch rapid.SampledFrom(kinds).Draw(t, "kind") {
 		case "register":
@@ -84,8 +93,10 @@ func genIsoSession(t *rapid.T, cfg gwsim.Config, idx int) isoSession {
 		case "bpub":
 			topic := rapid.SampledFrom(append(plainNames, "ab", "p/*/1", "p/cl/2")).Draw(t, "topic")
 			hasID[topic] = true
+			bmids = append(bmids, 10+mid)
 			add(gwgen.MQ(gwgen.BPublish(topic, byte(rapid.IntRange(0, 2).Draw(t, "qos")), 10+mid, []byte("b"), false, false)))
 		case "bpub-new":
+			bmids = append(bmids, 20+mid)
 			add(gwgen.MQ(gwgen.BPublish(fmt.Sprintf("new/%d/%d", idx, i), byte(rapid.IntRange(0, 2).Draw(t, "qos")), 20+mid, []byte("n"), false, false)))
 		case "sleep":
 			add(gwgen.SN(gwgen.Disconnect(30)))
@@ -95,6 +106,11 @@ func genIsoSession(t *rapid.T, cfg gwsim.Config, idx int) isoSession {
 			add(gwsim.Step{K: "snraw", Raw: sngen.Datagram(t)})
 		case "illegal":
 			add(gwgen.SN(snref.Pkt{Type: snref.SUBACK, MsgID: mid}))
+		case "wrongack":
+			// an acknowledgement of the wrong kind (or with a refusing return code) for a message ID
+			// which the broker's publishes of this script use
+			typ := rapid.SampledFrom([]byte{snref.PUBACK, snref.PUBREC, snref.PUBCOMP, snref.REGACK}).Draw(t, "acktype")
+			add(gwgen.SN(snref.Pkt{Type: typ, MsgID: rapid.SampledFrom(append([]uint16{11, 23, 0xffff}, bmids...)).Draw(t, "ackmid"), TopicID: uint16(rapid.IntRange(0, 3).Draw(t, "acktid")), RC: byte(rapid.IntRange(0, 3).Draw(t, "ackrc"))}))
 		case "badmq":
 			add(gwsim.Step{K: "mqraw", Raw: rapid.SampledFrom([][]byte{{0xf0, 0}, {0x30, 0x01, 0}, {0x90, 0x02, 0, 1}}).Draw(t, "badmq")})
 		case "mqclose":
@@ -165,6 +181,7 @@ func genIso(t *rapid.T) isoCase {
 		left[i]--
 		total--
 	}
+	c.Flood = rapid.SampledFrom([]int{0, 40, 150}).Draw(t, "flood")
 	return c
 }
 
@@ -253,6 +270,23 @@ func runIso(c isoCase, only int) []*gwsim.Trace {
 			}
 		}
 	}
+	if c.Flood > 0 {
+		for k := 0; k < c.Flood; k++ {
+			for i, s := range sess {
+				if s == nil {
+					continue
+				}
+				payload := bytes.Repeat([]byte{byte('A' + i)}, 44)
+				payload = append(payload, []byte(fmt.Sprintf("%04d", k))...)
+				s.ClientSend(gwgen.Publish(snref.TITShort, snref.ShortID("ab"), 0, 0, payload), false)
+			}
+		}
+		for _, s := range sess {
+			if s != nil {
+				s.Settle()
+			}
+		}
+	}
 	// let sessions that are on their way out finish (one poll interval), in both kinds of run alike
 	time.Sleep(250 * time.Millisecond)
 	for _, s := range sess {
@@ -271,8 +305,8 @@ func runIso(c isoCase, only int) []*gwsim.Trace {
 
 func TestC15(t *testing.T) {
 	vf.Check(t, vf.Prop[isoCase]{
-		ID: "C15", Name: "sessions-isolated", Bubble: true,
-		Rule: "2-3 sessions created from one shared gateway configuration and one shared predefined-topic map (as ListenAndServe does), same or different client IDs, each with its own generated script (registrations, subscriptions, publishes both ways, sleep/wake, optional scaled-down topic-ID space; a quarter of the sessions hostile: undecodable datagrams, illegal packets, garbage from their broker connection, abrupt broker close, packets of all 28 types) and a drawn interleaving of their steps. Non-trivial = at least two sessions each with a registration or subscription; hostile neighbours are labelled; distinct by case.",
+		ID: "C15", Name: "sessions-isolated", Bubble: true, MarkCurrent: true,
+		Rule: "2-3 sessions created from one shared gateway configuration and one shared predefined-topic map (as ListenAndServe does), same or different client IDs, each with its own generated script (registrations, subscriptions, publishes both ways, sleep/wake, optional scaled-down topic-ID space; a quarter of the sessions hostile: undecodable datagrams, illegal packets, acknowledgements of the wrong kind for live message IDs, garbage from their broker connection, abrupt broker close, packets of all 28 types) and a drawn interleaving of their steps; in two thirds of the cases a final flood: every session sends 40 or 150 PUBLISHes made of its own letter, all sessions at once without settling. Non-trivial = at least two sessions each with a registration or subscription; hostile neighbours are labelled; distinct by case.",
 		Assumptions: []string{"metamorphic oracle: what each session sends to its client and to its broker connection (bytes, in order, timing-free) when interleaved with its neighbours equals what it sends when the same script runs alone", "no virtual time passes inside a case, so retransmissions cannot make the two runs differ"},
 		Gen:         genIso,
 		Run: func(c isoCase) (r vf.Result) {
